@@ -27,6 +27,7 @@ RULE = ('Loop trees yielded by the real context reader for structurally valid do
 ASSUMPTIONS = [
     'refmodel.tree_model states path resolution, qualifier matching, insertion order, deletion and copy semantics',
     'get_value / set_value address the first match in document order over every instance of the loops named, like first() and select() (an earlier version tolerated "first instance only"; that hid /repo defect 47b9024)',
+    'trees rooted at ISA_LOOP / GS_LOOP are drawn in 6% of the runs; their violations carry the suffix |envelope-tree (one of them is a listed known finding)',
     'values written never contain delimiters; invalid paths may answer None/False/0/[] or raise X12PathError, nothing else, and must leave the state unchanged',
 ]
 COMPONENTS = {
@@ -83,6 +84,8 @@ def generate(rng, tier, run, seed=0):
         case['unsupported'] = str(e)
         return case
     loops = [l for l in _c09.anchored_loops(g) if l not in ('ISA_LOOP', 'GS_LOOP')]
+    if rng.random() < 0.06:
+        loops = [l for l in _c09.anchored_loops(g) if l in ('ISA_LOOP', 'GS_LOOP')] or loops      # trees rooted at an envelope loop
     if not loops:
         case['unsupported'] = 'no segment-anchored loop'
         return case
@@ -257,6 +260,15 @@ def model_seg_from_string(s, uid, mspec):
 
 
 def execute(case):
+    out = _execute(case)
+    if case.get('loop_id') in ('ISA_LOOP', 'GS_LOOP'):
+        # trees rooted at an envelope loop are a case of their own (their GS_LOOP nodes hang on the control map)
+        for v in out.violations:
+            v.sig += '|envelope-tree'
+    return out
+
+
+def _execute(case):
     seams.import_pyx12()
     import pyx12.x12context
     import pyx12.params
